@@ -348,6 +348,14 @@ impl Builtins {
                 if let &Value::P(Primitive::Str(ref c_type)) = c_type_val.as_ref() {
                     let stdout = env.borrow().stdout();
                     match env.borrow().converter_registry.get_converter(c_type) { Some(c) => {
+                        // Convert first and only then touch the artifact. A
+                        // value that can not be converted must not leave an
+                        // empty or partial file behind, nor destroy the
+                        // artifact of an earlier build.
+                        let mut buf: Vec<u8> = Vec::new();
+                        if let Err(e) = c.convert(Rc::new(val), &mut buf) {
+                            return Err(Error::new(format!("{}", e).into(), pos.clone()));
+                        }
                         let mut writer: Box<dyn std::io::Write> = match write_path {
                             Some(p) => {
                                 let p = p.with_extension(c.file_ext());
@@ -355,9 +363,7 @@ impl Builtins {
                             }
                             None => Box::new(stdout),
                         };
-                        if let Err(e) = c.convert(Rc::new(val), &mut writer) {
-                            return Err(Error::new(format!("{}", e).into(), pos.clone()));
-                        }
+                        writer.write_all(&buf)?;
                         return Ok(());
                     } _ => {
                         return Err(Error::new(
